@@ -85,7 +85,7 @@ def call(f, *a):
     """-> (result, exception class name or None)"""
     try:
         return f(*a), None
-    except (KeyError, TypeError, ValueError, IndexError) as e:
+    except Exception as e:      # noqa: any exception class is an observation compared with the model's
         return None, type(e).__name__
 
 
@@ -295,15 +295,21 @@ def sound(t, P, cl, what_prefix, ctx):
         t._check()
     except AssertionError:
         fail(what_prefix + ': _check() rejects the container', ctx)
+    except Exception as e:      # noqa
+        fail(what_prefix + ': _check() raised ' + type(e).__name__, ctx)
     from BTrees.check import check as bt_check
     try:
         bt_check(t)
     except AssertionError:
         fail(what_prefix + ': BTrees.check.check() rejects the container', ctx)
+    except Exception as e:      # noqa
+        fail(what_prefix + ': BTrees.check.check() raised ' + type(e).__name__, ctx)
     try:
         return shapes.walk(t, cl, kind, P.get('L'), P.get('I'), lt=klt, check_sizes=True)
     except shapes.Unsound as e:
         fail(what_prefix + ': independent walk: ' + str(e.args[0]), ctx)
+    except Exception as e:      # noqa
+        fail(what_prefix + ': walking the public state raised ' + type(e).__name__, ctx)
 
 
 def step(P, ks, a):
@@ -338,6 +344,10 @@ def _step(P, ks, a, op, none0, xnone):
         try:
             shapes.walk(t, cl, kind, P.get('L'), P.get('I'), lt=klt, check_sizes=False)
         except shapes.Unsound as e:
+            if P.get('prov') == 'grown':
+                # the pre-state was produced by the public API (re-keyed witness history)
+                fail('a history of public calls produced an unsound tree: ' + str(e.args[0]), ctx)
+                return
             raise RuntimeError('pre-state unsound: %s' % (e.args[0],))
     kx = None if xnone else ex[0]
     ky = ex[1] if 'y' in a else kx
@@ -346,6 +356,8 @@ def _step(P, ks, a, op, none0, xnone):
         got, ge, want, we, loose = set_op(t, m, P['group'], op, kx, ky, 'y' not in a)
     else:
         got, ge, want, we, loose = map_op(t, m, P['group'], op, kx, ky, v, kind == 'BTree')
+    if ge not in (None, 'KeyError', 'TypeError', 'ValueError', 'IndexError'):
+        fail('a public call raised an exception class outside its interface: %s' % ge, ctx)
     if chk in ('model', 'both'):
         if ge != we:
             fail('exception class differs from the sorted-map model', ctx, ge, we)
@@ -417,3 +429,59 @@ def _from_empty(P, ks, a, ds):
     if kind in ('BTree', 'TreeSet'):
         P2 = dict(P, prov='grown')
         sound(t, P2, cl, 'after k operations from empty', ctx)
+
+
+def history(P, ks, a):
+    """Re-keyed concrete history (from the catalogue search) replayed through the
+    public API with strictly ordered symbolic keys, then the full oracle: model
+    contents, both checkers, independent walker."""
+    with common.untraced():
+        _history(P, ks, a)
+
+
+def _history(P, ks, a):
+    cl = classes(P)
+    kind = P['kind']
+    is_set = kind in ('TreeSet', 'Set')
+    keys_mod.reset()
+    kk = [K(k, i) for i, k in enumerate(ks)]
+    ctx = {'harness': 'history', 'impl': P['impl'], 'kind': kind}
+    t = cl[kind]()
+    m = Model()
+    for op, r in P['hist']:
+        try:
+            if op == 'i':
+                if is_set:
+                    t.add(kk[r])
+                else:
+                    t[kk[r]] = val(r)
+                m.set(kk[r], None if is_set else val(r))
+            else:
+                if is_set:
+                    t.remove(kk[r])
+                else:
+                    del t[kk[r]]
+                m.delete(kk[r])
+        except Exception as e:      # noqa
+            fail('a public call raised %s during an insert/delete history' % type(e).__name__, ctx)
+            return
+    try:
+        c = contents(t, is_set)
+    except Exception as e:          # noqa
+        fail('reading the contents raised %s after an insert/delete history' % type(e).__name__, ctx)
+        return
+    if not (same_keys(c, m.keys()) if is_set else same_pairs(c, m.pairs())):
+        fail('ordered contents differ from the model after an insert/delete history', ctx, common.show(c), common.show(m.pairs()))
+    if len(t) != len(m):
+        fail('len() differs from the model after an insert/delete history', ctx)
+    for k in m.keys():
+        if k not in t:
+            fail('a stored key is not found by lookup after an insert/delete history', ctx)
+    try:
+        sound(t, dict(P, prov='grown'), cl, 'after an insert/delete history', ctx)
+    except shapes.Unsound:
+        raise
+    except common.Fail:
+        raise
+    except Exception as e:          # noqa
+        fail('walking the tree raised %s after an insert/delete history' % type(e).__name__, ctx)
